@@ -158,11 +158,48 @@ Theorem C07_store_history_exact :
   forall (content : node -> list node) (isman : node -> bool),
     (forall p, content p <> [] -> isman p = true) ->
     forall fuel ops n,
-      let s := fst (orun true content isman fuel empty_store ops) in
+      let s := fst (orun true true content isman fuel empty_store ops) in
       NoDup (predecessors (o_graph s) n) /\
       forall p, In p (predecessors (o_graph s) n) <-> In p (o_blobs s) /\ In n (content p).
 Proof. exact store_history_exact. Qed.
 Print Assumptions C07_store_history_exact.
+
+(* the same for the position of saveIndex in Store.GC as re-read from content/oci/oci.go on
+   this run ([gc_save_after_restore] is computed from Generated.GC07.calls_GC): this
+   statement stops compiling when index.json is written before the digest references of
+   the reachable manifests are restored *)
+Theorem C07_store_history_exact_src :
+  forall (content : node -> list node) (isman : node -> bool),
+    (forall p, content p <> [] -> isman p = true) ->
+    forall fuel ops n,
+      let s := fst (orun true gc_save_after_restore content isman fuel empty_store ops) in
+      NoDup (predecessors (o_graph s) n) /\
+      forall p, In p (predecessors (o_graph s) n) <-> In p (o_blobs s) /\ In n (content p).
+Proof. exact store_history_exact_src. Qed.
+Print Assumptions C07_store_history_exact_src.
+
+(* Store.GC saving index.json BEFORE restoring those references ([orun true false]): push 0,
+   2 = manifest{0}, 3 = index{2}; tag 3; GC; reopen; delete 3; reopen: 2 is stored, references
+   0, and Predecessors(0) omits it.  Without the reopen between GC and Delete the defect is
+   masked ([C07_store_gc_save_early_masked]). *)
+Theorem C07_store_gc_save_early_refuted :
+  exists content isman fuel ops n p,
+    (forall q, content q <> [] -> isman q = true) /\
+    let r := orun true false content isman fuel empty_store ops in
+    snd r = true /\ In p (o_blobs (fst r)) /\ In n (content p) /\
+    ~ In p (predecessors (o_graph (fst r)) n).
+Proof. exact store_gc_save_early_refuted. Qed.
+Print Assumptions C07_store_gc_save_early_refuted.
+
+Example C07_store_gc_save_early_masked :
+  let r := orun true false (ctab pf_ct) pf_isman 50 empty_store pf_ops in
+  snd r = true /\ predecessors (o_graph (fst r)) 0%N = [2%N].
+Proof. exact store_gc_save_early_masked. Qed.
+
+Example C07_store_history_fixed_example2 :
+  let r := orun true true (ctab pf_ct) pf_isman 50 empty_store pf_ops2 in
+  snd r = true /\ o_blobs (fst r) = [2; 0]%N /\ predecessors (o_graph (fst r)) 0%N = [2%N].
+Proof. exact store_history_fixed_example2. Qed.
 
 (* closing the layout and opening it again (directory, fs.FS, tar: the same loadIndex)
    changes neither the stored set nor any Predecessors answer *)
@@ -170,8 +207,8 @@ Theorem C07_store_reopen_same :
   forall (content : node -> list node) (isman : node -> bool),
     (forall p, content p <> [] -> isman p = true) ->
     forall fuel ops s',
-      let s := fst (orun true content isman fuel empty_store ops) in
-      ostep true content isman fuel s PReopen = (s', true) ->
+      let s := fst (orun true true content isman fuel empty_store ops) in
+      ostep true true content isman fuel s PReopen = (s', true) ->
       o_blobs s' = o_blobs s /\
       forall n, Permutation (predecessors (o_graph s') n) (predecessors (o_graph s) n).
 Proof. exact store_reopen_same. Qed.
@@ -184,14 +221,14 @@ Print Assumptions C07_store_reopen_same.
 Theorem C07_store_history_exact_prefix_refuted :
   exists content isman fuel ops n p,
     (forall q, content q <> [] -> isman q = true) /\
-    let r := orun false content isman fuel empty_store ops in
+    let r := orun false true content isman fuel empty_store ops in
     snd r = true /\ In p (o_blobs (fst r)) /\ In n (content p) /\
     ~ In p (predecessors (o_graph (fst r)) n).
 Proof. exact store_history_exact_prefix_refuted. Qed.
 Print Assumptions C07_store_history_exact_prefix_refuted.
 
 Example C07_store_history_fixed_example :
-  let r := orun true (ctab pf_ct) pf_isman 50 empty_store pf_ops in
+  let r := orun true true (ctab pf_ct) pf_isman 50 empty_store pf_ops in
   snd r = true /\ o_blobs (fst r) = [2; 0]%N /\ predecessors (o_graph (fst r)) 0%N = [2%N].
 Proof. exact store_history_fixed_example. Qed.
 
